@@ -12,7 +12,7 @@ from __future__ import annotations
 import ast
 
 from mlmverif import cfg as cfgm
-from mlmverif.core import (AnalysisError, Ctx, FuncInfo, is_self_attr, norm,
+from mlmverif.core import (kwarg, AnalysisError, Ctx, FuncInfo, is_self_attr, norm,
                            unparse, walk_no_nested)
 from mlmverif.effects import DIRECT, ELEM, NONE
 from mlmverif.props._agg import MERGE_NAMES, model
@@ -42,6 +42,17 @@ def run(ctx: Ctx):
   m = model(ctx)
   for r in (r1, r2, r3, r4, r5, r6):
     ctx.guard(r, m)
+  ctx.include('R-C11-7', '"a freshly created (empty) state is a neutral element'
+              ' on either side": merge combines every accumulated statistic on'
+              ' every path, driven by the configuration and not by what the'
+              ' receiver happens to hold (R-C01-1 coverage, R-C01-7 paths)',
+              _c01_shared, m, min_instances=20)
+
+
+def _c01_shared(sub, m):
+  from mlmverif.props import c01
+  sub.guard(c01.r1, m)
+  sub.guard(c01.r7, m)
 
 
 def r1(ctx: Ctx, m):
@@ -83,9 +94,18 @@ def _merge_alias_fields(m, ci, meth):
     env = eff.env(fi, tainted)
     for n in walk_no_nested(fi.node):
       if isinstance(n, ast.Assign):
+        pairs = []
         for t in n.targets:
+          if isinstance(t, (ast.Tuple, ast.List)):
+            if isinstance(n.value, (ast.Tuple, ast.List)) and len(n.value.elts) == len(t.elts):
+              pairs += list(zip(t.elts, n.value.elts))
+            else:
+              pairs += [(te, n.value) for te in t.elts]
+          else:
+            pairs.append((t, n.value))
+        for t, v in pairs:
           if is_self_attr(t):
-            lv = eff.level(n.value, env)
+            lv = eff.level(v, env)
             if lv != NONE:
               out[eff.canon_field(ci, t.attr)] = max(
                   lv, out.get(eff.canon_field(ci, t.attr), NONE))
@@ -341,6 +361,17 @@ def _truncating(e: ast.AST) -> str | None:
       if fn in ('heapq.nlargest', 'heapq.nsmallest', 'itertools.islice', 'itt.islice',
                 'mit.take', 'more_itertools.take'):
         return fn
+      # value-narrowing coercions: the stored statistic loses the fractional /
+      # high part of what was combined
+      if fn.split('.')[-1] == 'astype' and isinstance(x.func, ast.Attribute):
+        tgt = unparse(x.args[0]) if x.args else unparse(kwarg(x, 'dtype')) if kwarg(x, 'dtype') is not None else ''
+        if tgt.strip('\'"').split('.')[-1] not in ('float64', 'float', 'float_', 'double',
+                                                   'longdouble', 'float128', 'complex128', 'object'):
+          return f'cast {fn}({tgt})'
+      if fn in ('int', 'round', 'np.floor', 'np.trunc', 'np.rint', 'np.round', 'np.around',
+                'np.ceil', 'math.floor', 'math.trunc', 'math.ceil', 'np.int32', 'np.int64',
+                'np.float32', 'np.float16'):
+        return f'narrowing {fn}()'
   return None
 
 
@@ -348,7 +379,8 @@ def r6(ctx: Ctx, m):
   rule = 'R-C11-6'
   ctx.rule(rule, 'lossless merge: merge (and the self helpers it calls) never'
            ' stores a truncated view (bounded slice, most_common(n),'
-           ' nlargest/islice) of the combined state into the accumulator and'
+           ' nlargest/islice) or a narrowed value (astype to a non-float64'
+           ' type, int(), floor/round) of the combined state into the accumulator and'
            ' never deletes accumulated entries — a partial merge must remain a'
            ' sufficient statistic, truncation belongs in result()')
   n = 0
@@ -426,6 +458,18 @@ _R = 'aggregates/rolling_stats.py'
 _U = 'aggregates/utils.py'
 _T = 'aggregates/retrieval.py'
 VARIANTS = [
+    B('histogram-merge-casts-to-receiver-dtype', _R, '    self._hist = self._hist + hist\n',
+      '    self._hist = (self._hist + hist).astype(self._hist.dtype, copy=False)\n', 'R-C11-6'),
+    OK('histogram-merge-widens', _R, '    self._hist = self._hist + hist\n',
+       '    self._hist = (self._hist + hist).astype(np.float64)\n'),
+    B('topk-merge-iterates-receiver-states', _T,
+      '    for metric in self._metrics:\n      self._state[metric].merge(other.state[metric])',
+      '    for metric, state in self._state.items():\n      state.merge(other.state[metric])',
+      'R-C11-7'),
+    B('meanstate-merge-adopts-operand-arrays', _U,
+      '  def merge(self, other: MeanState):\n    self.total += other.total',
+      '  def merge(self, other: MeanState):\n    if not self.count:\n      self.total, self.count = other.total, other.count\n      return\n    self.total += other.total',
+      'R-C11-2'),
     B('merge-prunes-to-top-k', 'aggregates/text.py',
       "    # TODO(b/331796958): Optimize storage consumption\n    self._state.merge(other.state)\n",
       "    self._state.merge(other.state)\n    top_k = sorted(self._state.counter.items(), key=lambda x: (-x[1], x[0]))[: self.k]\n    self._state.counter = collections.Counter(dict(top_k))\n",
